@@ -276,6 +276,67 @@ example : taintOf (modeFields toyMode) [⟨1, .expr 2 []⟩, ⟨0, .const 0⟩, 
 
 end Pyunicorn.Mode
 
+/-! ### Round 5: owned objects — the table of the pair (owner, owned `Cached` object)
+
+`Model/MemoOwned.lean`: `compose t u l` puts the owner's table `t` and the owned class's *own*
+table `u` (both regenerated from the source) together: the owned object's cached methods with
+their own keys, the owner's methods calling them through the owned object's caches, the owner's
+mutators and **every** mutator of the owned class.  The counters of the owned object's
+`__cache_state__` are the owner's key components `comp.c` (that is what `Cached.__hash__` of the
+owner hashes when `self.comp` is listed in its `__cache_state__`). -/
+namespace Pyunicorn.Memo
+
+/-- **Coherence of the pair.**  If the composed table is well-formed, every history of owner
+mutators, mutators called on the owned object (`o.data.set_window(…)`), queries of either object
+(owner queries computing through whatever the owned object's caches hold), evictions and raising
+calls returns at every query what newly constructed objects compute from the current fields. -/
+theorem ocoherent_of_wf (t u : NTable) (l : OLink) (hwf : nwf (compose t u l) = true)
+    (ops : List XOp) : AllCoherent (xrun (compose t u l) State.init ops) :=
+  ncoherent_with_exceptions _ hwf ops
+
+/-- the owned object's methods sit, renamed, at their own indices in the table of the pair … -/
+theorem compose_owned_method (t u : NTable) (l : OLink) (i : Nat) (m : NMethod)
+    (h : u.methods[i]? = some m) : (compose t u l).methods[i]? = some (liftMethod l m) := by
+  obtain ⟨hi, hm⟩ := List.getElem?_eq_some_iff.mp h
+  simp [compose, List.getElem?_append_left, hi, hm]
+
+/-- … and **every** mutator of the owned class's own table is a mutator of the pair -/
+theorem compose_owned_mutator (t u : NTable) (l : OLink) (o : Mutator) (h : o ∈ u.mutators) :
+    liftMut l o ∈ (compose t u l).mutators := by
+  simp only [compose, List.mem_append, List.mem_map]
+  exact Or.inr ⟨o, h, rfl⟩
+
+/-! non-vacuity.  Owned class: method 0 reads its field 0, keyed on its counter 0; mutator 0 writes
+field 0 and bumps counter 0 (`ClimateData.set_window`), mutator 1 (`oBad` only) writes field 0 and
+bumps counter 1, which is *not* part of the owned object's `__cache_state__`.  Owner: method 0
+reads the owned object (field 5 = `data.content`) and calls its method 0; its key is the owner
+counter 7 = `data._mut_window` = the owned counter 0. -/
+def oOwner : NTable := ⟨[⟨[], ⟨[5], []⟩, [7], []⟩], [], some 4⟩
+def oOwned : NTable := ⟨[⟨[], ⟨[0], []⟩, [0], []⟩], [⟨[0], [0], []⟩], some 4⟩
+def oOwnedBad : NTable :=
+  ⟨[⟨[], ⟨[0], []⟩, [0, 1], []⟩], [⟨[0], [0], []⟩, ⟨[0], [1], []⟩], some 4⟩
+def oLink : OLink := ⟨5, [(0, 7)], [(0, 0, 0, 0), (0, 1, 0, 0)], [], 100⟩
+
+example : compose oOwner oOwned oLink =
+    ⟨[⟨[], ⟨[100], []⟩, [7], []⟩, ⟨[], ⟨[5, 100], [(0, 0)]⟩, [7], []⟩], [⟨[100], [7], []⟩], some 4⟩ := by
+  decide
+example : nwf (compose oOwner oOwned oLink) = true := by decide
+example : oLink.apart oOwner = true := by decide
+/-- the owned class is coherent on its own (its second counter is a method-level key part), the pair
+is not: the owner's key sees only the owned object's `__cache_state__` -/
+example : nwf oOwnedBad = true ∧ nwf (compose oOwner oOwnedBad oLink) = false := by decide
+example : noffending (compose oOwner oOwnedBad oLink) = [(1, 0, 1)] := by decide
+/-- owner query; the unbumped mutator on the owned object; owner query: the old value comes back -/
+example : xrun (compose oOwner oOwnedBad oLink) State.init
+      [.op (.query 1 0), .op (.mutate 1), .op (.query 0 0), .op (.query 1 0)] =
+    [some ([0, 0, 0, 0, 0], [0, 0, 0, 0, 0]), none, some ([0, 1], [0, 1]),
+     some ([0, 0, 0, 0, 0], [0, 0, 1, 0, 1])] := by decide
+example : AllCoherent (xrun (compose oOwner oOwned oLink) State.init
+      [.op (.query 1 0), .op (.mutate 0), .raises 1 0 [1], .op (.query 0 0), .op (.query 1 0)]) :=
+  ocoherent_of_wf _ _ _ (by decide) _
+
+end Pyunicorn.Memo
+
 /-! ### the tables of the current source -/
 namespace Pyunicorn.Generated.StructC01
 open Pyunicorn.Memo
@@ -341,5 +402,50 @@ theorem mode_no_leak_all (name : String) (t : MTable) (h : (name, t) ∈ allMTab
   have := mode_wf_all
   rw [List.all_eq_true] at this
   exact (mode_no_leak t (this (name, t) h) o ho s1 s2 hagree arg mask).2 f hf ha
+
+/-! #### round 5: the pairs (owner, owned `Cached` object) of the current source -/
+
+/-- one kernel evaluation for the three decidable facts about every pair (owner class, owned
+component): names kept apart, hand-written description sound, composed table well-formed -/
+theorem owned_pairs_ok :
+    allOLinks.all (fun p => p.2.2.2.2.apart p.2.2.1 && abstractionSound p.2.2.1 p.2.2.2.1 p.2.2.2.2 &&
+      nwf (compose p.2.2.1 p.2.2.2.1 p.2.2.2.2)) = true := by decide +kernel
+
+/-- for every owner class and every owned component (`data`, `grid`, `rp_x`, `rp_y`, `crp_xy`),
+the table composed of the owner's table and the owned class's own table is acyclic and covered:
+the key of every cached method of the owner covers what it reads of the owned object — directly
+or through the owned object's cached methods and caches — against **every public mutator of the
+owned class** as extracted from the owned class's source, and the owned methods are covered
+against the owner's mutators -/
+theorem owned_nwf_all :
+    allOLinks.all (fun p => nwf (compose p.2.2.1 p.2.2.2.1 p.2.2.2.2)) = true := by
+  have h := owned_pairs_ok
+  rw [List.all_eq_true] at h ⊢
+  intro p hp
+  have := h p hp
+  simp only [Bool.and_eq_true] at this
+  exact this.2
+
+/-- the renaming keeps the two objects' names apart, and the hand-written description of the owned
+objects' mutators that rounds 1–4 used (translate/fields_C01.json: `data.set_window` bumps
+`data._mut_window`) claims nothing the owned class's own table does not grant -/
+theorem owned_links_sound :
+    allOLinks.all (fun p => p.2.2.2.2.apart p.2.2.1 && abstractionSound p.2.2.1 p.2.2.2.1 p.2.2.2.2)
+      = true := by
+  have h := owned_pairs_ok
+  rw [List.all_eq_true] at h ⊢
+  intro p hp
+  have := h p hp
+  simp only [Bool.and_eq_true] at this ⊢
+  exact this.1
+
+/-- hence every history on a pair — owner mutators, mutators called on the owned object, queries of
+both, evictions, raising calls — is coherent -/
+theorem ocoherent_all (c comp : String) (t u : NTable) (l : OLink)
+    (h : (c, comp, t, u, l) ∈ allOLinks) (ops : List XOp) :
+    AllCoherent (xrun (compose t u l) State.init ops) := by
+  have := owned_nwf_all
+  rw [List.all_eq_true] at this
+  exact ocoherent_of_wf t u l (this (c, comp, t, u, l) h) ops
 
 end Pyunicorn.Generated.StructC01
